@@ -180,7 +180,12 @@ func (s *Server) goLive(
 	var livemsg []byte
 	switch outputType {
 	case JSON:
-		livemsg = redcon.AppendBulkString(nil, `{"ok":true,"live":true}`)
+		livemsg = []byte(`{"ok":true,"live":true}`)
+		if !websocket && connType == RESP {
+			// only a RESP socket takes the document as a bulk string; a
+			// WebSocket frame or a native frame carries it as it is
+			livemsg = redcon.AppendBulkString(nil, string(livemsg))
+		}
 	case RESP:
 		livemsg = redcon.AppendOK(nil)
 	}
